@@ -433,6 +433,21 @@ func eachDERMutant(seed []byte, fn func(desc string, m []byte)) int {
 				}
 			}
 		}
+		// every content length of a primitive (ancestor lengths fixed up): all proper prefixes and all proper suffixes.
+		// A decoder that checks a fixed-layout blob with ">= k" instead of "== n", or slices before it has checked, is
+		// only reached by the lengths in between. For contents above 640 bytes the lengths 0..320 and n-320..n-1.
+		if n.Children == nil && len(n.Content) > 2 {
+			L := len(n.Content)
+			for k := 1; k < L; k++ {
+				if L > 640 && k > 320 && k < L-320 {
+					continue
+				}
+				rep[r.idx] = &DERNode{Tag: n.Tag, Content: n.Content[:k]}
+				emit(fmt.Sprintf("%s/content-prefix=%d", id, k), serializeAll(roots))
+				rep[r.idx] = &DERNode{Tag: n.Tag, Content: n.Content[L-k:]}
+				emit(fmt.Sprintf("%s/content-suffix=%d", id, k), serializeAll(roots))
+			}
+		}
 		*r.parent = orig
 	}
 	// the whole artefact re-encoded with indefinite lengths on every constructed element (BER), and every truncation
